@@ -47,9 +47,12 @@ def check(case):
         if R.error is not None:
             raise Violation(f"raises:{type(R.error).__name__}", f"{R.where} raised {M.error_text(R)}")
         d0 = M.distance(M.mixing_matrices(R.before[1], R.jds, names), R.mats)
-        if R.budget or R.out is None:
+        final = R.out if R.out is not None else R.work
+        nsw = len(M.batches(R.journal))
+        if final is None or (R.budget and nsw < max(20, E // 10)):
             return {"nontrivial": False, "classes": ["approach", "budget_cut"], "inconclusive": True}
-        d1 = M.distance(M.mixing_matrices(M.snapshot(R.out)[1], R.jds, names), R.mats)
+        # a run cut by the draw budget after at least max(20, E/10) accepted swaps is still judged on its working graph
+        d1 = M.distance(M.mixing_matrices(M.snapshot(final)[1], R.jds, names), R.mats)
         if not d1 < d0:
             raise Violation("approach", f"distance to the target after rewiring {d1:.4f} is not smaller than before {d0:.4f} "
                                         f"(N={case['N']}, E={E}, lambda={case['lambda']}, swaps={len(M.batches(R.journal))})")
